@@ -22,10 +22,13 @@ sys.path.insert(0, os.path.dirname(os.path.abspath(__file__)))
 from common import Check, InfraError, run_driver, ddmin  # noqa: E402
 
 logging.disable(logging.CRITICAL)
+import warnings  # noqa: E402
+warnings.simplefilter('ignore')           # (large_record_size warnings are provoked on purpose)
 
 import transaction  # noqa: E402
 import ZODB  # noqa: E402
 import ZODB.broken  # noqa: E402
+import ZODB.config  # noqa: E402
 import ZODB.Connection  # noqa: E402
 import ZODB.utils  # noqa: E402
 import zodbpickle.pickle  # noqa: E402
@@ -36,20 +39,26 @@ from persistent.wref import WeakRef  # noqa: E402
 from ZODB.Connection import TransactionMetaData  # noqa: E402
 from ZODB.FileStorage import FileStorage  # noqa: E402
 from ZODB.MappingStorage import MappingStorage  # noqa: E402
-from ZODB.POSException import InvalidObjectReference, POSKeyError  # noqa: E402
+from ZODB.POSException import ConnectionStateError, InvalidObjectReference, POSKeyError  # noqa: E402
 from ZODB.serialize import get_refs, referencesf  # noqa: E402
 
 import c14_classes  # noqa: E402
-from c14_classes import Gone, GoneNA, Node, NodeNA, NodeNASub, PlainGone  # noqa: E402
+from c14_classes import (Gone, GoneNA, Node, NodeInit, NodeNA, NodeNAEx, NodeNASub, NodeRes, NodeSlots,  # noqa: E402
+                         NodeTupleState, Plain, PlainCopyreg, PlainGone, PlainReduce, PlainSlots)
+from c14_pkg.sub.mod import Deep  # noqa: E402
 
 Z64 = b'\0' * 8
 TMPBASE = [None]                          # scratch directory of the run (ck.tmp)
 LEGACY_LOAD = [True]                      # load Python-2-format records in this process (see legacy_canary)
-DBNAMES = ['d0', 'd1', 'dx']            # d0, d1: members of the multi-database; dx: a stranger
-KINDS = {'N': Node, 'A': NodeNA, 'B': NodeNASub, 'M': PersistentMapping, 'L': PersistentList, 'G': Gone, 'H': GoneNA}
+DBNAMES = ['d0', 'd1', 'd2', 'dx']      # d0..d2: members of the multi-database; dx: a stranger
+KINDS = {'N': Node, 'A': NodeNA, 'B': NodeNASub, 'M': PersistentMapping, 'L': PersistentList, 'G': Gone, 'H': GoneNA,
+         'I': lambda: NodeInit('required'), 'U': NodeTupleState, 'S': NodeSlots, 'E': NodeNAEx, 'R': NodeRes, 'P': Deep,
+         'Y': PersistentMapping, 'Z': PersistentList}      # Y, Z: new and empty (falsy), no sentinel
 CLSID = {('persistent.mapping', 'PersistentMapping'): 1, ('persistent.list', 'PersistentList'): 2,
          ('c14_classes', 'Node'): 3, ('c14_classes', 'NodeNA'): 4, ('c14_classes', 'NodeNASub'): 5,
-         ('c14_gone', 'Gone'): 6, ('c14_gone', 'GoneNA'): 7}
+         ('c14_gone', 'Gone'): 6, ('c14_gone', 'GoneNA'): 7, ('c14_classes', 'NodeInit'): 8,
+         ('c14_classes', 'NodeTupleState'): 9, ('c14_classes', 'NodeSlots'): 10, ('c14_classes', 'NodeNAEx'): 11,
+         ('c14_classes', 'NodeRes'): 12, ('c14_pkg.sub.mod', 'Deep'): 13}
 GONE_IDS = [6, 7]
 MEMO = 'a1'                               # a plain container met a second time (pickle memo)
 GHOST = 'a0'
@@ -79,6 +88,23 @@ def tr_value(v, leaf, memo):
         memo[id(v)] = v
         st = v.__dict__.get('__Broken_state__') if isinstance(v, ZODB.broken.Broken) else v.__dict__
         return ['n3:1'] + tr_value(st, leaf, memo)
+    if isinstance(v, (Plain, PlainSlots, PlainReduce, PlainCopyreg)):
+        if id(v) in memo:
+            return [MEMO]
+        memo[id(v)] = v
+        if isinstance(v, Plain):
+            return ['n6:1'] + tr_value(v.__dict__, leaf, memo)
+        a, b = (('a', 'b') if isinstance(v, PlainSlots) else ('x', 'y'))
+        return (['n%d:2' % (7 if isinstance(v, PlainSlots) else 8 if isinstance(v, PlainReduce) else 9)]
+                + tr_value(getattr(v, a, None), leaf, memo) + tr_value(getattr(v, b, None), leaf, memo))
+    if isinstance(v, (set, frozenset)):
+        # iteration order depends on the addresses of the members: canonical order (the generator puts at
+        # most one persistent object into a set, so the order of the references of the record is not touched)
+        if id(v) in memo:
+            return [MEMO]
+        memo[id(v)] = v
+        kids = sorted((tr_value(x, leaf, memo) for x in v), key=lambda k: ' '.join(tree_skel(k)))
+        return ['n%d:%d' % (4 if isinstance(v, set) else 5, len(kids))] + [t for k in kids for t in k]
     if isinstance(v, (list, tuple, dict)):
         if v == () and isinstance(v, tuple):
             return ['n1:0']
@@ -194,8 +220,14 @@ def sentinels(x, acc, seen):
         sentinels(x.__getstate__(), acc, seen)
     elif isinstance(x, WeakRef):
         acc.append('EMBEDDED:WeakRef')
-    elif type(x).__name__ == 'PlainGone':
+    elif type(x).__name__ in ('PlainGone', 'Plain'):
         sentinels(x.__dict__, acc, seen)
+    elif isinstance(x, (PlainSlots, PlainReduce, PlainCopyreg)):
+        for a in ('a', 'b', 'x', 'y'):
+            sentinels(getattr(x, a, None), acc, seen)
+    elif isinstance(x, (set, frozenset)):
+        for v in x:
+            sentinels(v, acc, seen)
 
 
 def legacy_weak(data):
@@ -223,6 +255,21 @@ def legacy_weak(data):
     p.dump(meta)
     p.dump(state)
     return f.getvalue() if changed else None
+
+
+def two_pickles(data):
+    """the record is exactly two pickles: nothing follows the second STOP"""
+    import pickletools
+    try:
+        pos = 0
+        for _ in range(2):
+            last = None
+            for op_, arg_, p_ in pickletools.genops(data[pos:]):
+                last = p_
+            pos += last + 1
+        return pos == len(data)
+    except Exception:
+        return False
 
 
 def py2_patch(data):
@@ -324,6 +371,8 @@ class Session:
         self.txn_open = False
         self.txn_events, self.sps, self.txn_implicit = [], [], set()
         self.history = []        # per successful transaction: (last tid of every storage, oracle's graph)
+        self.rewritten = set()   # records re-written by a connection that could not import c14_gone
+        self.init_expected = c14_classes.INIT_CALLS[0]
         self.tmp_log = {}
         self.before = None
         self.events = []
@@ -337,6 +386,18 @@ class Session:
         self.dbs = []
         databases = {}
         for i in range(ndb):
+            if case.get('storage') == 'config' and ndb == 1:
+                # the same DB through ZODB.config (options given explicitly)
+                o = self.db_options()
+                db = ZODB.config.databaseFromString(
+                    '<zodb>\n database-name d0\n cache-size %d\n pool-size %d\n large-record-size %d\n'
+                    ' allow-implicit-cross-references %s\n <mappingstorage>\n name d0\n </mappingstorage>\n</zodb>\n'
+                    % (o['cache_size'], o['pool_size'], o['large_record_size'],
+                       'true' if case.get('xrefs', [1])[0] else 'false'))
+                self._stub(db.storage, i, plans[i] if i < len(plans) else [])
+                self.storages.append(db.storage)
+                self.dbs.append(db)
+                continue
             if case.get('storage') == 'file':
                 import tempfile
                 self.dir = self.dir or tempfile.mkdtemp(prefix='c14-', dir=TMPBASE[0])
@@ -345,8 +406,9 @@ class Session:
                 st = MappingStorage(DBNAMES[i])
             self._stub(st, i, plans[i] if i < len(plans) else [])
             self.storages.append(st)
+            xr = case.get('xrefs', [1, 1, 1])
             self.dbs.append(ZODB.DB(st, databases=databases, database_name=DBNAMES[i],
-                                    xrefs=bool(case.get('xrefs', [1, 1])[i])))
+                                    xrefs=bool(xr[i] if i < len(xr) else 1), **self.db_options()))
         self.tm = transaction.TransactionManager()
         self.conns = {}          # role -> connection; roles 0,1 main session; 'A2' other conn of d0; 'X' of dx
         self.connid = {}         # id(conn) -> (db index, model connection number)
@@ -418,14 +480,19 @@ class Session:
                 cur[r.oid] = r.data
         return cur
 
+    def db_options(self):
+        c = self.case
+        return dict(cache_size=c.get('cache_size', 400), pool_size=c.get('pool_size', 7),
+                    large_record_size=c.get('large_record_size', 1 << 24))
+
     def conn(self, role):
         if role in self.conns:
             return self.conns[role]
-        if role == 1:
-            if self.ndb < 2:
+        if role in (1, 2):
+            if self.ndb <= role:
                 return None
-            c = self.conns[0].get_connection('d1')
-            self.connid[id(c)] = (1, 2)
+            c = self.conns[0].get_connection(DBNAMES[role])
+            self.connid[id(c)] = (role, 2 if role == 1 else 6)
         elif role == 'A2':
             c = self.dbs[0].open(transaction_manager=transaction.TransactionManager())
             self.connid[id(c)] = (0, 3)
@@ -436,10 +503,10 @@ class Session:
             self.connid[id(c)] = (1, 5)
         elif role == 'X':
             st = MappingStorage('dx')
-            self._stub(st, 2, [])
+            self._stub(st, 3, [])
             self.xdb = ZODB.DB(st, database_name='dx')
             c = self.xdb.open(transaction_manager=transaction.TransactionManager())
-            self.connid[id(c)] = (2, 4)
+            self.connid[id(c)] = (3, 4)
         else:
             return None
         self.conns[role] = c
@@ -501,6 +568,42 @@ class Session:
             o = PlainGone('p')
             o.kids = [self.build(x, shared) for x in spec[1]]
             return o
+        if k == 'pl':
+            o = Plain()
+            o.kids = [self.build(x, shared) for x in spec[1]]
+            return o
+        if k in ('ps', 'pr', 'pc'):
+            a = self.build(spec[1][0], shared) if spec[1] else 0
+            b = [self.build(x, shared) for x in spec[1][1:]]
+            if k == 'ps':
+                o = PlainSlots()
+                o.a, o.b = a, b
+                return o
+            return (PlainReduce if k == 'pr' else PlainCopyreg)(a, b)
+        if k == 'dk':                 # persistent objects as dictionary keys
+            d = {}
+            for i, x in enumerate(spec[1]):
+                key = self.build(x, shared)
+                try:
+                    d[key if isinstance(key, Persistent) else 'k%d' % i] = i
+                except TypeError:
+                    d['k%d' % i] = i
+            return d
+        if k in ('set', 'fset'):      # one persistent object among plain values
+            xs = [self.build(spec[1], shared)] + [a for a in spec[2]]
+            try:
+                return set(xs) if k == 'set' else frozenset(xs)
+            except TypeError:
+                return xs
+        if k == 'deep':               # spec[1] containers deep
+            v = self.build(spec[2], shared)
+            for i in range(spec[1]):
+                v = [v] if i % 3 else (v,)
+            return v
+        if k == 'many':               # spec[1] references to the same object in one record
+            return [self.build(spec[2], shared)] * spec[1]
+        if k == 'big':
+            return 'B' * spec[1]
         return 0
 
     def run(self):
@@ -521,8 +624,12 @@ class Session:
             if name in self.names or kind not in KINDS:
                 return
             o = KINDS[kind]()
+            if kind == 'I':
+                self.init_expected += 1
             s = 'S#' + name
-            if kind == 'M':
+            if kind in 'YZ':
+                s = None
+            elif kind == 'M':
                 o['s'] = s
             elif kind == 'L':
                 o.append(s)
@@ -543,8 +650,8 @@ class Session:
                     o.append(v)
                 else:
                     setattr(o, op[2], v)
-            except POSKeyError:
-                pass
+            except (POSKeyError, AttributeError, ConnectionStateError):
+                pass       # (AttributeError: a class with __slots__; ConnectionStateError: its connection is closed)
         elif k == 'args':
             o = self.names.get(op[1])
             if isinstance(o, (NodeNA, GoneNA)) and o._p_jar is None:
@@ -568,8 +675,25 @@ class Session:
                     and self.connid[id(o._p_jar)][1] in (1, 2):
                 try:
                     o._p_changed = True
-                except POSKeyError:
+                except (POSKeyError, ConnectionStateError):
                     pass
+        elif k == 'foreign' and op[2] == 'A2c':
+            # an object of a connection of the same database that has been closed meanwhile
+            o = self.names.get(op[1])
+            if o is None or o._p_jar is not None:
+                return
+            tm2 = transaction.TransactionManager()
+            c = self.dbs[0].open(transaction_manager=tm2)
+            try:
+                c.add(o)
+                tm2.commit()
+            except InvalidObjectReference:        # it refers to objects of the main connection: leave it alone
+                tm2.abort()
+                c.close()
+                return
+            c.close()
+            self.connid[id(c)] = (0, 7)
+            self.keep.append(c)
         elif k == 'foreign':
             o = self.names.get(op[1])
             c = self.conn(op[2])
@@ -593,6 +717,7 @@ class Session:
                 o._p_changed = True
                 tm2.commit()
                 self.count('rewrite-missing')
+                self.rewritten.add((0, mine._p_oid))
             except Exception as e:
                 self.violation('C14:missing-class-rewrite', 'loading the record of %s while classes are missing and '
                                'storing it again unchanged raised %r' % (mine._p_oid.hex(), e))
@@ -933,6 +1058,12 @@ class Session:
             except Exception as e:
                 out.append(key + '=err:Load:%s' % type(e).__name__)
                 continue
+            if isinstance(obj, ZODB.broken.Broken):
+                try:                                   # a placeholder refuses to be changed
+                    obj.c14_changed = 1
+                    self.violation('C14:roundtrip', 'the placeholder for %s (class missing) accepted a change' % key)
+                except ZODB.broken.BrokenModified:
+                    self.count('broken-modified-refused')
             toks = tr_value(st, leaf, {})
             out.append('%s=%d/%d/%s' % (key, clsid(type(obj)), int(isinstance(obj, ZODB.broken.Broken)),
                                        ' '.join(toks)))
@@ -1086,6 +1217,34 @@ class Session:
             dbs.append(ZODB.DB(new, databases=databases, database_name=DBNAMES[i], class_factory=class_factory))
         return dbs
 
+    def records_check(self, allrecs):
+        """Whatever path wrote it (commit, the copy of savepoint data, conflict resolution, a foreign writer):
+        the current record of every object is exactly two pickles, it is the model's record, and referencesf /
+        get_refs see its references."""
+        for k, data in sorted(allrecs.items()):
+            if not two_pickles(data):
+                self.violation('C14:embedded', 'the current record of %d:%s is not exactly a class pickle and a state '
+                               'pickle (%d bytes)' % (k[0], k[1].hex(), len(data)))
+            if k not in self.expect or k in self.rewritten:
+                continue
+            key = '%d:%s' % (k[0], k[1].hex())
+            try:
+                c_, a_, s_, _ = decode_record(data)
+                self.emit('rec ' + key, rec_text(c_, a_, s_))
+            except Exception as e:
+                self.violation('C14:embedded', 'the current record of %s cannot be decoded: %r' % (key, e))
+                continue
+            want = [o for d, o in self.edges.get(k, ()) if d == k[0]]
+            try:
+                got = referencesf(data)
+                got2 = [o for o, _ in decode_getrefs(data)]
+            except Exception as e:
+                got = got2 = 'raised %r' % (e,)
+            if got != want or got2 != want:
+                self.violation('C14:refs', 'referencesf / get_refs of the current record of %s give %s / %s; its strong '
+                               'same-database references are %s' % (key, got, got2, [o.hex() for o in want]))
+        self.count('records-check')
+
     def export_check(self):
         """Connection.exportFile walks the database with referencesf: the export holds exactly the
         objects reachable from the root through strong same-database references"""
@@ -1220,7 +1379,20 @@ class Session:
                 # the imported objects exist only in this transaction's savepoint so far: exporting them
                 # now must give the same graph
                 c2.exportFile(obj._p_oid, f2)
-                tm2.commit()
+                try:
+                    tm2.commit()
+                except POSKeyError as e:
+                    tm2.abort()
+                    c2.close()
+                    import traceback
+                    frames = [fr.name for fr in traceback.extract_tb(e.__traceback__)]
+                    argref = '_commit_savepoint' in frames and 'getGhost' in frames
+                    self.violation('C14:import-constructor-arg-reference' if argref else 'C14:import',
+                                   'the graph exported from %s was imported with importFile, but the commit failed with '
+                                   'POSKeyError %s%s' % (root_key[1].hex(), e, ' (a constructor argument is referenced by '
+                                                         'bare oid: _commit_savepoint resolves it in the storage before the '
+                                                         'imported records are copied there)' if argref else ''))
+                    return
                 start = obj._p_oid
                 c2.close()
                 f2.seek(0)
@@ -1329,8 +1501,13 @@ class Session:
                     c14_classes.hide_gone()
             finally:
                 c14_classes.show_gone()
+        self.records_check(allrecs)
         self.export_check()
         self.import_check()
+        if c14_classes.INIT_CALLS[0] != self.init_expected:
+            self.violation('C14:roundtrip', 'storing and loading ran NodeInit.__init__ %d times (objects are made '
+                           'with __new__ and __setstate__ only)' % (c14_classes.INIT_CALLS[0] - self.init_expected))
+            self.init_expected = c14_classes.INIT_CALLS[0]
         if self.case.get('legacy', True):
             patched = {}
             for k, data in allrecs.items():
@@ -1711,11 +1888,26 @@ def gen_value(rng, names, depth, weak_p):
         if q < 0.5:
             kids.append(ref())
         elif q < 0.75:
-            kids.append(['a', rng.choice([0, 1, 7, 'x', 'text', None, 2.5])])
+            kids.append(['a', rng.choice([0, 1, 7, 'x', 'text', None, 2.5])] if rng.random() < 0.98
+                        else ['big', rng.choice([70000, 140000])])
         else:
             kids.append(gen_value(rng, names, depth - 1, weak_p))
     if rng.random() < 0.07:
         return ['p', kids]          # inside a plain instance of a class that will go missing
+    if rng.random() < 0.16:         # other shapes of plain containers
+        q = rng.random()
+        if q < 0.2:
+            return ['pl', kids]
+        if q < 0.5:
+            return [rng.choice(['ps', 'pr', 'pc']), kids]
+        if q < 0.7:
+            return ['dk', kids]
+        if q < 0.9:
+            return [rng.choice(['set', 'fset']), ref() if weak_p == 0 else ['r', rng.choice(names)],
+                    rng.sample([0, 1, 7, 'x', 'text', None, 2.5], rng.randrange(0, 3))]
+        if q < 0.95:
+            return ['deep', rng.choice([30, 120, 250]), ref()]
+        return ['many', rng.choice([50, 1000]), ['r', rng.choice(names)]]
     if r < 0.62:
         return ['l', kids]
     if r < 0.78:
@@ -1727,10 +1919,16 @@ def gen_value(rng, names, depth, weak_p):
 
 def gen_case(rng, thorough=False):
     ndb = 2 if rng.random() < (0.45 if thorough else 0.35) else 1
-    case = dict(ndb=ndb, xrefs=[1 if rng.random() < 0.93 else 0, 1],
-                oids=[gen_oids(rng, 12), gen_oids(rng, 8), []], ops=[],
+    if ndb == 2 and rng.random() < 0.25:
+        ndb = 3
+    case = dict(ndb=ndb, xrefs=[1 if rng.random() < 0.93 else 0, 1, 1],
+                oids=[gen_oids(rng, 12), gen_oids(rng, 8), gen_oids(rng, 6), []], ops=[],
                 legacy=rng.random() < 0.5, legacy_weak=rng.random() < 0.5, fresh_each=rng.random() < 0.5,
-                storage='file' if rng.random() < 0.12 else 'mapping', reset=rng.random() < 0.6)
+                storage='file' if rng.random() < 0.12 else 'mapping', reset=rng.random() < 0.6,
+                cache_size=rng.choice([1, 3, 400, 400]), pool_size=rng.choice([1, 7]),
+                large_record_size=rng.choice([200, 1 << 24]))
+    if ndb == 1 and case['storage'] == 'mapping' and rng.random() < 0.25:
+        case['storage'] = 'config'
     ops = case['ops']
     weak_p = rng.choice([0.0, 0.1, 0.1, 0.25])
     counter = [0]
@@ -1742,11 +1940,11 @@ def gen_case(rng, thorough=False):
         for _ in range(k):
             name = 'n%d' % counter[0]
             counter[0] += 1
-            kind = rng.choice('NNNNAABMMLGH')
+            kind = rng.choice('NNNNAABMMLGHIUSERPYZNAML')
             ops.append(['new', name, kind])
             names.append(name)
             kinds[name] = kind
-            home[name] = 0 if ndb == 1 or rng.random() < 0.6 else 1
+            home[name] = 0 if ndb == 1 or rng.random() < 0.6 else rng.randrange(1, ndb)
         return names
 
     allnames = []
@@ -1765,7 +1963,7 @@ def gen_case(rng, thorough=False):
         for _ in range(rng.choice([1, 2, 3, 4, 6, 8]) + (rng.randrange(5, 20) if big else 0)):
             holder = rng.choice(allnames)
             pool = allnames
-            if ndb == 2 and rng.random() < 0.7:
+            if ndb >= 2 and rng.random() < 0.7:
                 same = [n for n in allnames if home[n] == home[holder]]
                 pool = same or allnames
             ops.append(['set', holder, 'f%d' % rng.randrange(4), gen_value(rng, pool, rng.choice([0, 0, 1, 2, 3]), weak_p)])
@@ -1776,13 +1974,13 @@ def gen_case(rng, thorough=False):
                 ops.append(['root', home[n], n, n])
             elif r < 0.50:
                 ops.append(['add', home[n], n])
-        if ndb == 2:
+        if ndb >= 2:
             for n in fresh:
-                if home[n] == 1 and rng.random() < 0.8:
-                    ops.append(['add', 1, n])
+                if home[n] != 0 and rng.random() < 0.8:
+                    ops.append(['add', home[n], n])
         if rng.random() < 0.04:
             victim = rng.choice(fresh)
-            ops.append(['foreign', victim, rng.choice(['A2', 'X', 'B2'])])
+            ops.append(['foreign', victim, rng.choice(['A2', 'X', 'B2', 'A2c'])])
             ops.append(['set', rng.choice(allnames), 'g', ['r', victim]])
             ops.append(['commit'])
             return case
@@ -1793,6 +1991,11 @@ def gen_case(rng, thorough=False):
             ops += [['poison', victim], ['touch', victim], ['commit']]
             return case
         ops.append(['commit'])
+        res = [n for n in allnames if kinds[n] == 'R' and home[n] == 0]
+        if case['storage'] == 'file' and res and rng.random() < 0.6:
+            # a write conflict the class resolves: the storage re-pickles the resolved state (ours)
+            r = rng.choice(res)
+            ops += [['set', r, 'v', ['a', rng.randrange(9)]], ['conflict', r], ['commit']]
         if rng.random() < 0.12:
             # a record re-written by somebody who cannot import c14_gone
             ops.append(['rewrite-missing', rng.choice(allnames)])
